@@ -45,12 +45,12 @@ def compactAlone (n : Node) : Option PrintState :=
   | .ok ps => some ps
   | .error _ => none
 
-def firstByte (n : Node) : Option UInt8 := (compactAlone n).bind fun ps => ps.out.getLast?
+def firstByteAlone (n : Node) : Option UInt8 := (compactAlone n).bind fun ps => ps.out.getLast?
 def lastByte (n : Node) : Option UInt8 := (compactAlone n).bind fun ps => ps.out.head?
 
 /-- first byte is `-`, `+` or `^`: a prefix operator that is also an infix (or postfix) operator -/
 def startsWithAmbiguousOp (n : Node) : Bool :=
-  match firstByte n with
+  match firstByteAlone n with
   | some b => b = 45 || b = 43 || b = 94
   | none => false
 
@@ -135,14 +135,12 @@ a `:` is followed by `]`, but once printed elsewhere than directly inside `a[…
 def openColonOutsideIndex (prog : NList) : Bool :=
   anyProg (fun _ n => (nonIndexChildren n).any isOpenColon) (fun l => l.any isOpenColon) prog
 
-def isWordByte (b : UInt8) : Bool :=
-  (97 ≤ b && b ≤ 122) || (65 ≤ b && b ≤ 90) || (48 ≤ b && b ≤ 57) || b = 95
-
 /-- junction of two consecutive (non-comment) statements in compact mode: is the text unambiguous? -/
 def compactJunctionSafe (s1 s2 : Node) : Bool :=
-  match compactAlone s1, firstByte s2 with
+  match compactAlone s1, firstByteAlone s2 with
   | some ps1, some b2 =>
-    let sep := isArray (some s2) || (isInfix (some s1) && ps1.last != [125] && ps1.last != [93])
+    let sep := isArray (some s2) || (isInfix (some s1) && ps1.last != [125] && ps1.last != [93]) || b2 = 40 || b2 = 91
+      || ((match ps1.last.getLast? with | some e => isWordByte e || e = 46 | none => false) && (isWordByte b2 || b2 = 46))
     if sep then !(b2 = 45 || b2 = 43 || b2 = 94)
     else match ps1.out.head? with
       | some e1 => (e1 = 41 || e1 = 93 || e1 = 125 || e1 = 34)
@@ -160,21 +158,19 @@ def compactAdjacent (prog : NList) : Bool :=
   anyProg (fun _ _ => false)
     (fun l => compactListUnsafe (l.filterMap fun s => match s with | some n => if n.isComment then none else some n | none => none)) prog
 
-/-- classes that explain a normal-mode failure, in reporting order -/
+/-- classes that explain a normal-mode failure, in reporting order (the classes of the defects repaired
+since — number-literal-next-to-dot, line-comment-then-same-line-comment, open-ended-colon-outside-index,
+string-with-abfv-control-byte — are no longer listed: a failure there is unclassified again) -/
 def normalClasses (prog : NList) : List String :=
   (if stmtStartsWithPrefixOp prog then ["statement-starts-with-prefix-operator"] else []) ++
   (if commentInExpr prog then ["comment-inside-expression"] else []) ++
   (if fakeClosedComment prog then ["unclosed-block-comment-ending-in-star-slash"] else []) ++
-  (if stringWithAbfv prog then ["string-with-abfv-control-byte"] else []) ++
   (if repeatedAssocOnRight prog then ["repeated-associative-operator-on-the-right"] else []) ++
-  (if numberBeforeDot prog then ["number-literal-next-to-dot"] else []) ++
-  (if nonIdentParam prog then ["illegal-token-as-parameter"] else []) ++
-  (if lineCommentThenSameLine prog then ["line-comment-then-same-line-comment"] else []) ++
-  (if openColonOutsideIndex prog then ["open-ended-colon-outside-index"] else [])
+  (if nonIdentParam prog then ["illegal-token-as-parameter"] else [])
 
-/-- classes that explain a compact-mode failure -/
+/-- classes that explain a compact-mode failure (compact-adjacent-statements was repaired: in compact mode a
+statement starting with `-`, `+`, `^` is printed in parentheses and a separator is emitted where needed) -/
 def compactClasses (prog : NList) : List String :=
-  (if compactAdjacent prog then ["compact-adjacent-statements"] else []) ++
   (normalClasses prog).filter (· != "statement-starts-with-prefix-operator")
 
 end Grol.Classes
